@@ -35,6 +35,7 @@ from typing import Any
 
 from happysimulator.core.entity import Entity
 from happysimulator.core.event import Event
+from happysimulator.core.sim_future import SimFuture
 
 logger = logging.getLogger(__name__)
 
@@ -190,13 +191,14 @@ class RWLock(Entity):
         self._write_acquisitions += 1
         return True
 
-    def acquire_read(self) -> Generator[float]:
+    def acquire_read(self) -> Generator[float | SimFuture]:
         """Acquire a read lock, blocking if necessary.
 
         Blocks if a writer holds the lock or a writer is waiting.
 
         Yields:
-            0.0 when read lock is acquired.
+            0.0 when read lock is acquired immediately; otherwise a SimFuture
+            resolved by the release that grants the lock.
         """
         if self.try_acquire_read():
             yield 0.0
@@ -206,20 +208,19 @@ class RWLock(Entity):
         self._read_contentions += 1
         enqueue_time = self._clock.now.nanoseconds if self._clock else 0
 
-        acquired = [False]
-
-        def on_wake():
-            acquired[0] = True
+        # Future that a release resolves when the lock is granted to us
+        acquired = SimFuture()
 
         waiter = _Waiter(
             waiter_type=_WaiterType.READER,
-            callback=on_wake,
+            callback=acquired.resolve,
             enqueue_time_ns=enqueue_time,
         )
         self._waiters.append(waiter)
 
-        while not acquired[0]:
-            yield 0.0
+        # Park until woken (waiting consumes no simulated activity)
+        while not acquired.is_resolved:
+            yield acquired
 
         self._read_acquisitions += 1
 
@@ -227,13 +228,14 @@ class RWLock(Entity):
             wait_time = self._clock.now.nanoseconds - enqueue_time
             self._total_read_wait_ns += wait_time
 
-    def acquire_write(self) -> Generator[float]:
+    def acquire_write(self) -> Generator[float | SimFuture]:
         """Acquire a write lock, blocking if necessary.
 
         Blocks if any readers or another writer holds the lock.
 
         Yields:
-            0.0 when write lock is acquired.
+            0.0 when write lock is acquired immediately; otherwise a SimFuture
+            resolved by the release that grants the lock.
         """
         if self.try_acquire_write():
             yield 0.0
@@ -243,20 +245,19 @@ class RWLock(Entity):
         self._write_contentions += 1
         enqueue_time = self._clock.now.nanoseconds if self._clock else 0
 
-        acquired = [False]
-
-        def on_wake():
-            acquired[0] = True
+        # Future that a release resolves when the lock is granted to us
+        acquired = SimFuture()
 
         waiter = _Waiter(
             waiter_type=_WaiterType.WRITER,
-            callback=on_wake,
+            callback=acquired.resolve,
             enqueue_time_ns=enqueue_time,
         )
         self._waiters.append(waiter)
 
-        while not acquired[0]:
-            yield 0.0
+        # Park until woken (waiting consumes no simulated activity)
+        while not acquired.is_resolved:
+            yield acquired
 
         self._write_acquisitions += 1
 
